@@ -2,10 +2,17 @@
    The meaning of a program with macros is [inline p] (Lang/Inline.v); the compiled program is compared with it by
    the verified checker on every generated program.  Proved here about the meaning itself: it does not depend on
    the order in which the macros are written. *)
-From ES Require Import Base Ssb.Param Lang.Ast Lang.Inline Lang.InlineProofs.
+From ES Require Import Base Ssb.Param Lang.Ast Lang.Inline Lang.InlineProofs Lang.MacroStatic Lang.InlineFree.
 From Coq Require Import Permutation.
 
 Theorem C05_meaning_is_order_independent : forall ms ms' rs,
   NoDup (map m_name ms) -> Permutation ms ms' -> inline (mkProg ms rs) = inline (mkProg ms' rs).
 Proof. exact inline_order_independent. Qed.
 Print Assumptions C05_meaning_is_order_independent.
+
+(* ... and it is a program without macros: no definition and no call is left (in any block, case, loop body or for
+   header), so the meaning of a program with macros is the meaning of a macro-free program *)
+Theorem C05_meaning_is_macro_free : forall p p', inline p = Ok p' ->
+  p_macros p' = [] /\ program_has any_call p' = false.
+Proof. exact inline_macro_free. Qed.
+Print Assumptions C05_meaning_is_macro_free.
